@@ -78,6 +78,12 @@ def check(case, viol):
                 dicom=copy.deepcopy(DICOM))
     if case.get('float_header'):
         data['dicom']['RescaleSlope'] = 1.0
+    # the header's sequence-valued field in the container types a caller may hold it in (a mutable one can be written to)
+    sk = case.get('spacing', 'tuple')
+    if sk == 'list':
+        data['dicom']['PixelSpacing'] = list(DICOM['PixelSpacing'])
+    elif sk == 'ndarray':
+        data['dicom']['PixelSpacing'] = np.array(DICOM['PixelSpacing'], dtype=np.float64)
     if case['boxes']:
         mk = list if case['boxes'] == 'list' else tuple
         data['bboxes'] = [mk([1.0, 1.0, 1.0, W - 2.0, H - 2.0, D - 2.0]), mk([2.0, 1.5, 0.5, 5.0, 4.5, 3.5])]
@@ -131,7 +137,8 @@ def make_cases(rng, tier):
                               'image': img, 'layout': lay, 'channels': 2 if 'apply_to_channel_idx' in kw else rng.choice([None, None, 3]),
                               'boxes': rng.choice(['list', 'tuple']) if supports_boxes else None,
                               'kps': rng.choice(['list', 'tuple']) if supports_kps else None,
-                              'then': rng.choice([[], [], ['HorizontalFlip']])})
+                              'then': rng.choice([[], [], ['HorizontalFlip']]),
+                              'spacing': ['tuple', 'ndarray', 'list'][len(cases) % 3]})
     return cases
 
 
